@@ -4,13 +4,15 @@
     (index-wise quarter rounds, layouts, HChaCha), anchored by the published vectors
     in Spec/KAT_ChaCha.v.
 
-    The statement about [apply_keystream] after [seek] for the seven cipher types is a
-    corollary of the block-level theorems below and the history theorem of C02; its
-    place is marked at the end of this file. *)
-From Coq Require Import NArith List.
+    The statement about [apply_keystream] after [seek] — and after any history of seeks,
+    applies and position queries — for the seven cipher types is the second group of
+    theorems: the block-level theorems composed with the history theorem of C02
+    (Proofs/ChaChaCompose.v). *)
+From Coq Require Import NArith ZArith List.
 From CC Require Import Lib.Words Lib.Bytes Lib.ListX Spec.Lanes Model.ChaChaGuts.
 From CC Require Import Proofs.ChaChaRounds Proofs.ChaChaGutsWords Proofs.ChaChaGuts Proofs.ChaChaGutsKat.
 From CC Require Spec.ChaCha Spec.KAT_ChaCha.
+From CC Require Import Model.ChaChaStream Proofs.ChaChaStreamSpec Proofs.ChaChaStreamHist Proofs.ChaChaCompose.
 Import ListNotations.
 Local Open Scope N_scope.
 
@@ -120,17 +122,92 @@ Print Assumptions C01_block_ietf.
 Print Assumptions C01_block_x.
 Print Assumptions C01_kats.
 
-(* ------------------------------------------------------------------------------------
-   PLACE FOR THE FINAL COROLLARY (added by the lead once Props/C02.v has the history
-   theorem):
+(** * end to end: seek / apply_keystream / current_pos histories against the specification
 
-   Theorem C01_apply_keystream_eq_spec :
-     for each of the seven type aliases (layout l, drounds in {4,6,10}), every key
-     (32 bytes), nonce (8/12/24 bytes), every in-range byte position p and data:
-       m_run variant drounds key nonce [OSeek p; OApply data]
-         = [ObsSeek ROk; ObsApply ROk (Spec.ChaCha.spec_apply l drounds key nonce p data)]
-     (and after any history) — from the C02 history theorem instantiated with
-     blockfn := fun ctr => Spec.ChaCha.spec_block l drounds key nonce ctr, whose premise
-     "refill of the state seeked to block ctr yields blockfn ctr" is C01_block_djb /
-     C01_block_ietf / C01_block_x above, and "refill4 = four refills" is C14_refill4_eq_4_refills.
-   ------------------------------------------------------------------------------------ *)
+    [m_run v drounds key nonce ops] runs the model of the cipher type (constructor, Buffer
+    wrapper with lazy fill / wide path / tail, seek32/seek64, the real block producers) on a
+    history; [spec_block_fn] reads nothing but the block counter from a state, the key stream is
+    [Spec.ChaCha.spec_block] of the layout; [machine_run] is the abstract position machine
+    written with Spec/ChaCha.v alone. [drounds] is arbitrary (4/6/10 are the shipped aliases). *)
+Theorem C01_refill_at_counter_eq_spec_block :
+  forall v drounds key nonce,
+    length key = 32%nat -> Forall is_byte nonce ->
+    length nonce = (match v with VDjb => 8 | VIetf => 12 | VX => 24 end)%nat ->
+    forall k, k < Spec.ChaCha.blocks_of (layout_of v) ->
+    fst (refill (block_state v drounds key nonce k) drounds)
+      = Spec.ChaCha.spec_block (layout_of v) drounds key nonce k.
+Proof. exact refill_block_state_eq_spec. Qed.
+
+Theorem C01_apply_keystream_eq_spec :
+  forall v drounds key nonce ops,
+    Forall is_byte key -> length key = 32%nat -> Forall is_byte nonce ->
+    length nonce = (match v with VDjb => 8 | VIetf => 12 | VX => 24 end)%nat ->
+    Forall op_ok ops ->
+    m_run v drounds key nonce ops
+      = spec_run (spec_block_fn v drounds key nonce) (is12_of v) (init_of v drounds key nonce) 0 ops
+    /\ existsb obs_panics (m_run v drounds key nonce ops) = false.
+Proof. exact apply_keystream_eq_spec. Qed.
+
+Theorem C01_ks_byte_eq_spec :
+  forall v drounds key nonce,
+    length key = 32%nat -> Forall is_byte nonce ->
+    length nonce = (match v with VDjb => 8 | VIetf => 12 | VX => 24 end)%nat ->
+    forall p, p < 64 * Spec.ChaCha.blocks_of (layout_of v) ->
+    ks_byte (spec_block_fn v drounds key nonce) (is12_of v) (init_of v drounds key nonce) p
+      = nth (N.to_nat (p mod 64)) (Spec.ChaCha.spec_block (layout_of v) drounds key nonce (p / 64)) 0.
+Proof. exact ks_byte_spec_fn. Qed.
+
+Theorem C01_model_history_eq_spec_machine :
+  forall v drounds key nonce ops,
+    Forall is_byte key -> length key = 32%nat -> Forall is_byte nonce ->
+    length nonce = (match v with VDjb => 8 | VIetf => 12 | VX => 24 end)%nat ->
+    Forall op_ok ops ->
+    m_run v drounds key nonce ops = machine_run (layout_of v) drounds key nonce 0 ops
+    /\ existsb obs_panics (m_run v drounds key nonce ops) = false.
+Proof. exact model_history_eq_spec_machine. Qed.
+
+Theorem C01_seek_apply_after_history_eq_spec :
+  forall v drounds key nonce pre p data,
+    Forall is_byte key -> length key = 32%nat -> Forall is_byte nonce ->
+    length nonce = (match v with VDjb => 8 | VIetf => 12 | VX => 24 end)%nat ->
+    Forall op_ok pre -> N.of_nat (length data) < 2 ^ 64 ->
+    p < 2 ^ 64 -> p + N.of_nat (length data) <= 64 * Spec.ChaCha.blocks_of (layout_of v) ->
+    m_run v drounds key nonce (pre ++ [OSeek (Z.of_N p); OApply data])
+    = m_run v drounds key nonce pre
+      ++ [ObsSeek ROk; ObsApply ROk (Spec.ChaCha.spec_apply (layout_of v) drounds key nonce p data)].
+Proof. exact seek_apply_after_history_eq_spec. Qed.
+
+Theorem C01_seek_apply_eq_spec :
+  forall v drounds key nonce p data,
+    Forall is_byte key -> length key = 32%nat -> Forall is_byte nonce ->
+    length nonce = (match v with VDjb => 8 | VIetf => 12 | VX => 24 end)%nat ->
+    N.of_nat (length data) < 2 ^ 64 ->
+    p < 2 ^ 64 -> p + N.of_nat (length data) <= 64 * Spec.ChaCha.blocks_of (layout_of v) ->
+    m_run v drounds key nonce [OSeek (Z.of_N p); OApply data]
+    = [ObsSeek ROk; ObsApply ROk (Spec.ChaCha.spec_apply (layout_of v) drounds key nonce p data)].
+Proof. exact seek_apply_eq_spec. Qed.
+
+Theorem C01_spec_apply_bytes :
+  forall v drounds key nonce p data i,
+    Forall is_byte key -> length key = 32%nat -> Forall is_byte nonce ->
+    length nonce = (match v with VDjb => 8 | VIetf => 12 | VX => 24 end)%nat ->
+    p + N.of_nat (length data) <= 64 * Spec.ChaCha.blocks_of (layout_of v) -> (i < length data)%nat ->
+    nth i (Spec.ChaCha.spec_apply (layout_of v) drounds key nonce p data) 0
+    = N.lxor (nth i data 0)
+        (nth (N.to_nat ((p + N.of_nat i) mod 64))
+             (Spec.ChaCha.spec_block (layout_of v) drounds key nonce ((p + N.of_nat i) / 64)) 0).
+Proof. exact spec_apply_nth. Qed.
+
+Example C01_rfc7539_2_4_2_through_seek_apply :
+  m_run VIetf 10 ex_key ex_nonce [OSeek 64; OApply ex_plain] = [ObsSeek ROk; ObsApply ROk ex_cipher]
+  /\ Spec.ChaCha.spec_apply Spec.ChaCha.Ietf 10 ex_key ex_nonce 64 ex_plain = ex_cipher.
+Proof. exact rfc7539_2_4_2_through_seek_apply. Qed.
+
+Print Assumptions C01_refill_at_counter_eq_spec_block.
+Print Assumptions C01_apply_keystream_eq_spec.
+Print Assumptions C01_ks_byte_eq_spec.
+Print Assumptions C01_model_history_eq_spec_machine.
+Print Assumptions C01_seek_apply_after_history_eq_spec.
+Print Assumptions C01_seek_apply_eq_spec.
+Print Assumptions C01_spec_apply_bytes.
+Print Assumptions C01_rfc7539_2_4_2_through_seek_apply.
